@@ -61,12 +61,23 @@ def register(prop):
          assumptions=["alive-about-self from a foreign address, with a malformed/short version vector is in the may-ignore class (only the unconditional half is checked)",
                       "accusations at the largest representable incarnation are excluded by the statement"])
 
+    prop("C06", [dict(scn="C06", quick=20000, thorough=1500000, wall_quick=100, wall_thorough=1500)],
+         "bench mode: real node knowing m in {1..40} peers (crosses n-2<k both ways), SuspicionMult/SuspicionMaxTimeoutMult 1-8, starts suspecting px (own evidence or another "
+         "accuser) at t_s; timed script of 0-10 confirmations (distinct peers, duplicates, the accuser, the observer, the suspect, strangers, lower/higher incarnation) at "
+         "instants incl. +-1ns/+-2ms around the minimum, optionally refutation (+re-suspicion), third-party dead, leave; reference Lifeguard timer written from the paper; "
+         "death instant compared in exact virtual time (tolerance 3ms + 0.1% of the maximum timeout); non-trivial = run reached a verdict; distinct = distinct (config, script) tuples",
+         assumptions=["cluster size n for the timeout = number of known nodes incl. observer and suspect", "tolerance covers the library's millisecond floor and its 1/1000 node-scale truncation"])
+
 NOT_CLAIMED = {}
 
 SIM_NOTE = ("trusted base: Go runtime + testing/synctest fake clock, the harness (scheduler, SimNet, oracles) under /verif/sim; "
             "assumes the guarded yield sites are the relevant preemption points; seeded search, not proof")
 
 META = {
+ "C06": dict(
+    level_text="Exact virtual-time comparison of the instant a real node drops a suspect against a reference Lifeguard timer, for seeded timed confirmation scripts, refutation/re-suspicion interleavings and cluster sizes; virtual time removes the 25 ms fudge of the real-time unit test and makes +-1 ns placements possible.",
+    design_ref="DESIGN.md §3 C06", level_note=SIM_NOTE,
+    technique="deterministic simulation (bench mode): seeded timed confirmation scripts in virtual time vs reference Lifeguard timer"),
  "C02": dict(
     level_text="Seeded accusation sequences against one real node with an exact per-step oracle (strictly outranking refutation, queued alive carries the new incarnation, health accounting), through direct calls and the packet pipeline; cluster restarts with reset incarnation are covered by C05's convergence oracle.",
     design_ref="DESIGN.md §3 C02", level_note=SIM_NOTE,
